@@ -456,6 +456,26 @@ GROUPS = {
              "  cases hv : w.var <;> by_cases ht : traceId.truthy = true <;> by_cases hl : logger.truthy = true <;> logscope_eval"),
         ],
     },
+    "dispexit": {
+        "import": "Haiway.Bridge.DispExit", "open": "Haiway.MiniPy Haiway.Bridge.DispExit",
+        "defs": {
+            "gDispExit": Target("src/haiway/context/disposables.py", "Disposables", "__aexit__", ["exc_type", "exc_val", "exc_tb"], {},
+                                ext_functions={"BaseExceptionGroup": (271, ["@1"])},
+                                expr_externals={"gather(*[disposable.__aexit__(exc_type, exc_val, exc_tb) for disposable in "
+                                                "self._disposables], return_exceptions=True)": (270, [])}),
+        },
+        "obligations": [
+            ("exit_errors_surface", ["gDispExit"], "ExitSurfaces gDispExit",
+             "intro excType excVal excTb w hg\n  unfold gDispExit\n"
+             "  cases h : excsExcept w.results excVal with\n"
+             "  | nil => dispexit_eval\n"
+             "  | cons e rest =>\n"
+             "    obtain ⟨c, n, rfl⟩ := head_is_exc h\n"
+             "    cases rest with\n"
+             "    | nil => dispexit_eval\n"
+             "    | cons e2 rest2 => dispexit_eval"),
+        ],
+    },
     "completion": {
         "import": "Haiway.Bridge.Completion", "open": "Haiway.MiniPy Haiway.Bridge.Completion",
         "defs": {
